@@ -27,6 +27,11 @@ def run(tier, scratch, drv, only_cases=None):
             states += st.get("distinct", 0)
             gen += st.get("generated", 0)
             wall += st["wall_s"]
+        # a Server over two listeners, the first closed behind its back: Close must still stop the second one
+        for first in ("tcp", "ws"):
+            cases.append({"cfg": {"kind": "srv2", "url": first},
+                          "obs": [{"k": "op", "op": "listen", "res": "ok"}, {"k": "op", "op": "close", "res": "ok|err"},
+                                  {"k": "op", "op": "dial", "res": "err"}]})
         for i, c in enumerate(cases):
             c["n"] = i + 1
         res["model"] = {"states": states, "transitions": gen, "wall_s": round(wall, 2), "invariants_checked": True}
